@@ -531,6 +531,19 @@ func (g *Gen) GenArgv(p *ProgDef) []string {
 			c := cur.Cmds[g.r.Intn(len(cur.Cmds))]
 			out = append(out, c.Name)
 			path = append(path, c)
+			// the same spelling on both sides of a command name (the two levels may resolve it
+			// differently: other options, an UnsetOptions wrapper, another abbreviation set)
+			if g.pct(35) {
+				opts := []string{}
+				for _, t := range out[:len(out)-1] {
+					if len(t) > 1 && t[0] == '-' && t != "--" {
+						opts = append(opts, t)
+					}
+				}
+				if len(opts) > 0 {
+					out = append(out, opts[g.r.Intn(len(opts))])
+				}
+			}
 		case roll < 75 && p.Help:
 			out = append(out, p.HelpName)
 		case roll < 80:
